@@ -129,6 +129,19 @@ impl Sim {
         }
     }
 
+    /// fidelity probe: kill this process / snapshot into `fid_dir` at a global point index
+    pub fn configure_fidelity(&self, kill_at: Option<u64>, snap_at: Option<u64>, fid_dir: PathBuf) {
+        let mut st = self.hooks.st.lock().unwrap();
+        st.kill_at_global = kill_at;
+        st.snap_at_global = snap_at;
+        st.fid_dir = fid_dir;
+    }
+
+    pub fn fidelity_taken(&self) -> (u64, Option<(PathBuf, &'static str)>) {
+        let st = self.hooks.st.lock().unwrap();
+        (st.global_points, st.fid_taken.clone())
+    }
+
     fn finding(&self, i: usize, clause: &str, props: &[&'static str], detail: String) -> Finding {
         Finding { clause: clause.to_string(), props: props.to_vec(), detail, op_index: i }
     }
@@ -405,6 +418,27 @@ impl Sim {
     }
 
     // ------------------------------------------------------------ main loop
+
+    pub fn hooks_arc(&self) -> Arc<SeqHooks> {
+        self.hooks.clone()
+    }
+
+    /// for the forked fidelity child: run, never clean up (the process is expected to be killed)
+    pub fn run_no_cleanup(mut self, ops: &[Op]) -> bool {
+        pocket_db::verif::install(Some(self.hooks.clone()));
+        let _ = fs::create_dir_all(&self.scratch);
+        if self.open_store(0).is_err() {
+            return false;
+        }
+        let o = self.observe();
+        self.last_obs = Some(o);
+        for (i, op) in ops.iter().enumerate() {
+            if self.step(i, op).is_some() {
+                return false;
+            }
+        }
+        true
+    }
 
     pub fn run(mut self, ops: &[Op]) -> RunResult {
         pocket_db::verif::install(Some(self.hooks.clone()));
